@@ -4,7 +4,7 @@
 id=$1
 W=/tmp/mw/$id
 out=/verif/seeded
-for n in 1 2; do
+for n in ${SEEDS:-1 2}; do
   d=$W/_out/$n
   [ -f $d/patch.diff ] || continue
   dest=$out/$id-$n
